@@ -18,7 +18,7 @@ type authOracle struct {
 	taint map[string]bool
 }
 
-func newAuthOracle() *authOracle { return &authOracle{taint: map[string]bool{}} }
+func newAuthOracle() *authOracle   { return &authOracle{taint: map[string]bool{}} }
 func (o *authOracle) Name() string { return "auth" }
 func (o *authOracle) End(e *Env)   {}
 
